@@ -172,6 +172,14 @@ def gen_case(rng):
                 if o and (o.get("type") == "marginal" or
                           (o.get("type") == "opposing_insertion" and (vars_[0].is_array or vars_[1].is_array))):
                     del d["order"]
+            # F9 (known): with BOTH dimensions categorical-date the population proportion is the row proportion on
+            # either orientation, so a sort keyed on population estimates is not mirrored; keep that known finding
+            # confined to its own loci by not sorting on those keys there
+            if vars_[0].kind == "cat_date" and vars_[1].kind == "cat_date":
+                for d in (rd, cd):
+                    o = d.get("order")
+                    if o and o.get("measure") in ("population", "population_moe"):
+                        o["measure"] = "count_weighted"
             case["transforms"] = {"rows_dimension": rd, "columns_dimension": cd}
         if rng.random() < 0.4:
             tot = 1
